@@ -1183,7 +1183,7 @@ class Evaluator:
         is_res = base.startswith("core::result::Result::")
         if is_opt or is_res:
             return self.opt_res(name, args, depth, ("Some", "None") if is_opt else ("Ok", "Err"), node)
-        if base.startswith("core::bool::<impl bool>::") or (isinstance(a0, bool) and name in ("then", "then_some", "not")):
+        if ((fn.startswith("core::bool::") or fn.startswith("bool::")) and name in ("then", "then_some", "not")) or (isinstance(a0, bool) and name in ("then", "then_some", "not")):
             b = self.decide_bool(a0)
             if name == "then":
                 return V("Some", (self.apply(args[1], [], depth),)) if b else V("None")
